@@ -55,12 +55,14 @@ func (s *Store) Set(id packets.PacketID) (bool, error) {
 	}
 	c := s.pool.Get()
 	defer c.Close()
-	_, err := c.Do("hset", getKey(s.clientID), id, 1)
+	// HSET replies the number of fields that were added: 0 means the id is already stored in redis
+	// (the cache is empty after a broker restart).
+	n, err := redis.Int(c.Do("hset", getKey(s.clientID), id, 1))
 	if err != nil {
 		return false, err
 	}
 	s.unackpublish[id] = struct{}{}
-	return false, nil
+	return n == 0, nil
 }
 
 func (s *Store) Remove(id packets.PacketID) error {
